@@ -337,8 +337,20 @@ func c20PurityCase(c *Ctx, r *Rng) {
 		case 1:
 			sort.Float64s(spec)
 		}
+		// the caller's slice is a prefix of a longer array it still uses (coarse := fine[:k]): nothing behind the
+		// slice's length may be written either
+		guard := math.Float64frombits(0x7ff8dead0000beef)
+		full := append(append([]float64(nil), spec...), guard, guard, guard)
+		spec = full[:len(spec):len(full)]
 		before := f64List(spec)
 		tally.BucketPairs(tally.ValueBuckets(spec))
+		for _, g := range full[len(spec):] {
+			if math.Float64bits(g) != math.Float64bits(guard) {
+				c.Cov.Fail(Failure{Kind: "violated", Clause: "caller-unchanged", Signature: "pairs-wrote-behind-caller-slice", Line: "pairs v " + before,
+					Reply: fmt.Sprintf("BucketPairs wrote %s into the caller's backing array behind the slice it was given", f64hex(g))})
+				break
+			}
+		}
 		c.Cov.Hit("purity.value." + lenClass(len(spec)))
 		c.Cov.Eval("caller pairs v "+before, !isSortedF(spec) && len(spec) > 1)
 		c.Cov.Check(c.Drv, "caller pairs v "+before+" => "+f64List(spec), "pairs-mutated-caller-slice")
@@ -350,9 +362,18 @@ func c20PurityCase(c *Ctx, r *Rng) {
 		case 1:
 			sort.Slice(spec, func(i, j int) bool { return spec[i] < spec[j] })
 		}
-		db := toDurs(spec)
+		const guardD = time.Duration(-0x0dead0000beef)
+		fullD := append(toDurs(spec), guardD, guardD, guardD)
+		db := fullD[:len(spec):len(fullD)]
 		before := i64List(spec)
 		tally.BucketPairs(db)
+		for _, g := range fullD[len(spec):] {
+			if g != guardD {
+				c.Cov.Fail(Failure{Kind: "violated", Clause: "caller-unchanged", Signature: "pairs-wrote-behind-caller-slice", Line: "pairs d " + before,
+					Reply: fmt.Sprintf("BucketPairs wrote %d into the caller's backing array behind the slice it was given", int64(g))})
+				break
+			}
+		}
 		c.Cov.Hit("purity.duration." + lenClass(len(spec)))
 		sorted := sort.SliceIsSorted(spec, func(i, j int) bool { return spec[i] < spec[j] })
 		c.Cov.Eval("caller pairs d "+before, !sorted && len(spec) > 1)
